@@ -5,7 +5,7 @@ for l in open('/verif/properties.jsonl'):
     if p['id']==pid: break
 print(f"""You are testing a verification effort from the outside. You get ONLY the text of one semantic property of the Python library pytorch-frame (pyg-team/pytorch-frame) and your own scratch git worktree of the repository. Do not look at /verif or anything outside your worktree and the installed Python packages.
 
-Setup: create your worktree with `git -C /repo worktree add /tmp/mut_{pid} HEAD` and work ONLY inside /tmp/mut_{pid} (never edit /repo itself, never commit anywhere). Run code with `cd /tmp/mut_{pid} && PYTHONPATH=/tmp/mut_{pid} PYTHONHASHSEED=0 OMP_NUM_THREADS=2 /venv/bin/python ...` (python 3.12, torch CPU, pandas 3, numpy 2; no network; xgboost/catboost/lightgbm/sklearn are NOT installed).
+Setup: create your worktree with `git -C /repo worktree add /tmp/mut_{pid} HEAD` and work ONLY inside /tmp/mut_{pid} (never edit /repo itself, never commit anywhere, and NEVER use `git stash` — the stash is shared between all worktrees of /repo; toggle your change with `git apply` / `git apply -R` of your saved patch file). Run code with `cd /tmp/mut_{pid} && PYTHONPATH=/tmp/mut_{pid} PYTHONHASHSEED=0 OMP_NUM_THREADS=2 /venv/bin/python ...` (python 3.12, torch CPU, pandas 3, numpy 2; no network; xgboost/catboost/lightgbm/sklearn are NOT installed).
 
 The property ({pid}: {p['title']}):
 STATEMENT: {p['statement']}
@@ -17,6 +17,6 @@ Task: produce TWO different, realistic changes (bugs a developer could plausibly
 For EACH change k in {{1,2}}:
  1. Start from a clean worktree (`git -C /tmp/mut_{pid} checkout -- .`), make the change, save it as /tmp/mut_{pid}_out/{pid}_{{k}}/patch.diff (`git -C /tmp/mut_{pid} diff > ...`).
  2. Write a demonstration /tmp/mut_{pid}_out/{pid}_{{k}}/demo.py: a small standalone program using only the public behaviour described by the property, which exits 0 on the unchanged code and exits 1 (printing what went wrong) with the change applied. Run it both ways and record the outputs.
- 3. Confirm the existing test suite still passes with the change: run `cd /tmp/mut_{pid} && PYTHONPATH=/tmp/mut_{pid} /venv/bin/python -m pytest -q -p no:cacheprovider --timeout=900 test/data test/utils test/transforms test/nn test/test_stype.py 2>&1 | grep -E "^(FAILED|ERROR)|passed|failed" | sort` WITH and WITHOUT the change and compare the sets of failing tests: the change must not make any test fail that passes without it (some tests fail regardless because optional packages are missing — ignore those). If it newly breaks a test, pick a different change.
+ 3. Confirm the existing test suite still passes with the change: run `cd /tmp/mut_{pid} && PYTHONPATH=/tmp/mut_{pid} /venv/bin/python -m pytest -q -p no:cacheprovider --color=no --timeout=900 test/data test/utils test/transforms test/nn test/test_stype.py 2>&1 | grep -E "^(FAILED|ERROR)|passed|failed" | sort` WITH and WITHOUT the change and compare the sets of failing tests: the change must not make any test fail that passes without it (some tests fail regardless because optional packages are missing — ignore those). If it newly breaks a test, pick a different change.
  4. Write /tmp/mut_{pid}_out/{pid}_{{k}}/meta.json: {{"property": "{pid}", "summary": "<one sentence what was changed>", "needs_to_manifest": "<what specific input/sequence exposes it>", "files": [...], "ran": ["<commands you ran and their outcome>"]}}.
 When done: `git -C /tmp/mut_{pid} checkout -- .` then `git -C /repo worktree remove --force /tmp/mut_{pid}`. Final message: for each change, one paragraph (what, why it breaks the property, what exposes it) and the paths of the files written.""")
